@@ -657,7 +657,7 @@ class QueryObjectDescriptor(CanBehaveLikeAVariable[T], ABC):
             unbound_variables.update(var._unique_variables_.difference(HashedIterable(values=sources)))
         unbound_variables_with_domain = HashedIterable()
         for var in unbound_variables:
-            if var.value._domain_ and len(var.value._domain_.values) > 20:
+            if isinstance(var.value, Variable) and var.value._domain_ and len(var.value._domain_.values) > 20:
                 if var not in self.warned_vars:
                     self.warned_vars.add(var)
                     unbound_variables_with_domain.add(var)
@@ -1248,6 +1248,13 @@ class Flatten(DomainMapping):
             inner_iter = inner
         for inner_v in inner_iter:
             yield HashedValue(inner_v)
+
+    @property
+    @lru_cache(maxsize=None)
+    def _all_variable_instances_(self) -> List[Variable]:
+        # One binding of the child's variables has several elements: the element is a variable of its own for whatever
+        # keys results by the variables they depend on (result caches, duplicate suppression).
+        return self._child_._all_variable_instances_ + [self]
 
     @property
     def _name_(self):
